@@ -1,0 +1,42 @@
+//go:build verif
+
+package fasta
+
+// Property C19 (author C19b): the FASTA writers only read the sequence set they are given.
+// IterateChar is inlined into the writer (`loop 1 in ...`), the function literal is inlined at the call
+// `it(...)` inside it with the loop clauses of its own contract below; bytes.Buffer is modelled by the
+// ghost fields buflen / bufdata of specs/externs.spec.
+
+//@ func WriteAlignment
+//@   props C19
+//@   requires sb != nil && rowsok(sb)
+//@   modifies nothing
+//@   loop 1 in (*seqbag).IterateChar
+//@     invariant stop == false
+//@     decreases nrows(sb) - $i
+
+//@ func WriteAlignment$1
+//@   props C19
+//@   inline
+//@   ensures result == false
+//@   modifies gf(buflen; buf), gfa(bufdata; buf)
+//@   loop 1
+//@     invariant 0 <= i && i <= len(seq)
+//@     decreases len(seq) - i
+
+//@ func WriteSequences
+//@   props C19
+//@   requires sb != nil && rowsok(sb)
+//@   modifies nothing
+//@   loop 1 in (*seqbag).IterateChar
+//@     invariant stop == false
+//@     decreases nrows(sb) - $i
+
+//@ func WriteSequences$1
+//@   props C19
+//@   inline
+//@   ensures result == false
+//@   modifies gf(buflen; buf), gfa(bufdata; buf)
+//@   loop 1
+//@     invariant 0 <= i && i <= len(seq)
+//@     decreases len(seq) - i
